@@ -20,6 +20,8 @@ const (
 	kIPSECKEY = "ipseckey-eats-line"
 	kGenTTL   = "generate-ttl"
 	kComment  = "comment-adjacent-token"
+	kRrtype   = "comment-resets-rrtype"
+	kDirArg   = "directive-arg-keyword"
 )
 
 // ---------------------------------------------------------------------------------------------
@@ -315,6 +317,9 @@ func genOpts() zm.GenOpts {
 	if pbt.Known(kGenTTL) {
 		o.ForceGenerateTTL = true
 	}
+	if pbt.Known(kDirArg) {
+		o.KeywordLike = keywordLike
+	}
 	if pbt.Known(kIPSECKEY) {
 		o.LastOnlySamples = map[string]bool{"IPSECKEY": true}
 	}
@@ -322,7 +327,21 @@ func genOpts() zm.GenOpts {
 }
 
 func renderOpts() zm.RenderOpts {
-	return zm.RenderOpts{ForceGenerateTTL: pbt.Known(kGenTTL), BlankBeforeComment: pbt.Known(kComment), OnExcluded: pbt.Excluded}
+	return zm.RenderOpts{ForceGenerateTTL: pbt.Known(kGenTTL), BlankBeforeComment: pbt.Known(kComment), OnExcluded: pbt.Excluded,
+		NoCommentBeforeKeywordRdata: pbt.Known(kRrtype), KeywordLike: keywordLike}
+}
+
+// keywordLike: the token spells a type or class keyword for the library's lexer. Used only to
+// delimit the excluded class of a known finding (never in an oracle), hence the library tables.
+func keywordLike(tok string) bool {
+	u := strings.ToUpper(tok)
+	if _, ok := dns.StringToType[u]; ok {
+		return true
+	}
+	if _, ok := dns.StringToClass[u]; ok {
+		return true
+	}
+	return strings.HasPrefix(u, "TYPE") || strings.HasPrefix(u, "CLASS")
 }
 
 // finish draws the parser options and the renderings for a model.
@@ -502,7 +521,7 @@ func init() {
 
 	// finding #13: an IPSECKEY record followed by any line fails the whole parse
 	pbt.Probe(kIPSECKEY, func() error {
-		return evalFollow(followCase{Sample: "IPSECKEY", After: 0, Plain: true})
+		return oneLine(evalFollow(followCase{Sample: "IPSECKEY", After: 0, Plain: true}))
 	})
 	// finding #14: records of a $GENERATE without TTL get 3600 instead of the $TTL in force
 	pbt.Probe(kGenTTL, func() error {
@@ -518,6 +537,72 @@ func init() {
 			return nil
 		}
 		c := zoneCase{Zone: *z, OriginText: "example.", Renderings: []rendering{{Files: map[string]string{"gen.db": plainText(z, den)}}}}
-		return evalZone(&c, den)
+		return oneLine(evalZone(&c, den))
 	})
+	// a comment written directly behind an owner, class or type token (no blank in between, only
+	// possible inside parentheses) is not recognised: the token is lexed as a plain string
+	pbt.Probe(kComment, func() error {
+		z := &zm.Zone{FileName: "c.db"}
+		z.Items = []zm.Item{{Kind: zm.KRec, Owner: zm.MName{Kind: zm.Abs, Labels: [][]byte{[]byte("www"), []byte("example")}}, HasTTL: true, TTL: 600,
+			RD: zm.RData{Type: zm.TA, IP: []byte{192, 0, 2, 1}}}}
+		den, err := zm.Denote(z)
+		if err != nil {
+			return nil
+		}
+		c := zoneCase{Zone: *z, Renderings: []rendering{
+			{Files: map[string]string{"c.db": "www.example. 600 ( A; the address\n 192.0.2.1 )\n"}},
+			{Files: map[string]string{"c.db": "www.example. ( IN; class\n 600 A 192.0.2.1 )\n"}},
+			{Files: map[string]string{"c.db": "www.example.(; owner\n 600 A 192.0.2.1 )\n"}},
+		}}
+		return oneLine(evalZone(&c, den))
+	})
+}
+
+func init() {
+	// inside parentheses, the newline that ends a comment makes the lexer classify the following
+	// RDATA tokens as type/class keywords again
+	pbt.Probe(kRrtype, func() error {
+		z := &zm.Zone{FileName: "n.db"}
+		nm := func(s ...string) zm.MName {
+			m := zm.MName{Kind: zm.Abs}
+			for _, l := range s {
+				m.Labels = append(m.Labels, []byte(l))
+			}
+			return m
+		}
+		z.Items = []zm.Item{{Kind: zm.KRec, Owner: nm("n", "example"), HasTTL: true, TTL: 300,
+			RD: zm.RData{Type: zm.TNSEC, Names: []zm.MName{nm("next", "example")}, Types: []uint16{1, 2}}}}
+		den, err := zm.Denote(z)
+		if err != nil {
+			return nil
+		}
+		c := zoneCase{Zone: *z, Renderings: []rendering{
+			{Files: map[string]string{"n.db": "n.example. 300 NSEC next.example. A ( ; types\n NS )\n"}},
+		}}
+		return oneLine(evalZone(&c, den))
+	})
+}
+
+func init() {
+	// a relative $ORIGIN (or $INCLUDE origin) that spells a type keyword is refused
+	pbt.Probe(kDirArg, func() error {
+		z := &zm.Zone{FileName: "o.db", HasOrigin: true, Origin: [][]byte{[]byte("example")}}
+		z.Items = []zm.Item{
+			{Kind: zm.KOrigin, Origin: zm.MName{Kind: zm.Rel, Labels: [][]byte{[]byte("mx")}}},
+			{Kind: zm.KRec, Owner: zm.MName{Kind: zm.Rel, Labels: [][]byte{[]byte("www")}}, HasTTL: true, TTL: 300, RD: zm.RData{Type: zm.TA, IP: []byte{192, 0, 2, 1}}},
+		}
+		den, err := zm.Denote(z)
+		if err != nil {
+			return nil
+		}
+		c := zoneCase{Zone: *z, OriginText: "example.", Renderings: []rendering{{Files: map[string]string{"o.db": plainText(z, den)}}}}
+		return oneLine(evalZone(&c, den))
+	})
+}
+
+func oneLine(err error) error {
+	if err == nil {
+		return nil
+	}
+	return fmt.Errorf("%s", strings.ReplaceAll(strings.TrimSpace(err.Error()), "\n", " | "))
 }
